@@ -89,3 +89,61 @@ Definition spec_BIC (L : R) (K N : Z) : R := (-2 * L + IZR K * ln (IZR N))%R.
 Definition spec_t (value se : R) : R := (value / se)%R.
 Definition spec_p (Phi : R -> R) (t : R) : R := (2 * (1 - Phi (Rabs t)))%R.
 Definition spec_pair (bi bj vii vjj vij : R) : R := ((bi - bj) / sqrt (vii + vjj - 2 * vij))%R.
+
+(* ------------------------------------------------------------------ *)
+(* Histories of one raw-results object: which DERIVED attributes it carries.
+   bioResults._calculate_stats writes the statistics it derives into the raw-results object itself; the
+   same object can be processed again after its raw inputs changed (same object, pickle read back...).
+   State = which derived attributes are present (not None / existing).  [clear] is applied with the list
+   GENERATED from _clear_stats (Gen/Stats.v: clear_stats_attrs); [recompute] is the hand-written model of
+   the block `if self.data.H is not None:` (tied to the code by stream history). *)
+Inductive attr := A_beta (f : beta_field) | A_data (name : string).
+
+Definition beta_field_eqb (a b : beta_field) : bool :=
+  match a, b with
+  | F_name, F_name | F_value, F_value | F_lb, F_lb | F_ub, F_ub
+  | F_stdErr, F_stdErr | F_tTest, F_tTest | F_pValue, F_pValue
+  | F_robust_stdErr, F_robust_stdErr | F_robust_tTest, F_robust_tTest | F_robust_pValue, F_robust_pValue
+  | F_bootstrap_stdErr, F_bootstrap_stdErr | F_bootstrap_tTest, F_bootstrap_tTest
+  | F_bootstrap_pValue, F_bootstrap_pValue => true
+  | _, _ => false
+  end.
+
+Definition attr_eqb (a b : attr) : bool :=
+  match a, b with
+  | A_beta f, A_beta g => beta_field_eqb f g
+  | A_data s, A_data t => String.eqb s t
+  | _, _ => false
+  end.
+
+Definition dstate := attr -> bool.
+Definition amem (a : attr) (l : list attr) : bool := existsb (attr_eqb a) l.
+Definition clear (l : list attr) (st : dstate) : dstate := fun a => if amem a l then false else st a.
+Definition set_all (l : list attr) (st : dstate) : dstate := fun a => if amem a l then true else st a.
+
+Definition classical_attrs : list attr :=
+  [A_beta F_stdErr; A_beta F_tTest; A_beta F_pValue; A_data "varCovar"; A_data "correlation"].
+Definition robust_attrs : list attr :=
+  [A_beta F_robust_stdErr; A_beta F_robust_tTest; A_beta F_robust_pValue;
+   A_data "robust_varCovar"; A_data "robust_correlation"].
+Definition bootstrap_attrs : list attr :=
+  [A_beta F_bootstrap_stdErr; A_beta F_bootstrap_tTest; A_beta F_bootstrap_pValue;
+   A_data "bootstrap_varCovar"; A_data "bootstrap_correlation"].
+Definition table_attrs : list attr := [A_data "secondOrderTable"].
+Definition derived_attrs : list attr := classical_attrs ++ robust_attrs ++ bootstrap_attrs ++ table_attrs.
+
+(* the block guarded by `if self.data.H is not None:` (bootstrap part guarded by `bootstrap is not None`) *)
+Definition recompute (hasH hasBoot : bool) (st : dstate) : dstate :=
+  if hasH then
+    set_all (classical_attrs ++ robust_attrs ++ table_attrs ++ (if hasBoot then bootstrap_attrs else [])) st
+  else st.
+
+(* one processing of the object, [cl] = the attributes cleared first *)
+Definition process (cl : list attr) (step : bool * bool) (st : dstate) : dstate :=
+  recompute (fst step) (snd step) (clear cl st).
+Definition run_history (cl : list attr) (hist : list (bool * bool)) (st : dstate) : dstate :=
+  fold_left (fun s step => process cl step s) hist st.
+
+(* what the property asks: a family is reported iff its matrix is held NOW *)
+Definition held_now (step : bool * bool) (a : attr) : bool :=
+  if amem a bootstrap_attrs then fst step && snd step else fst step.
